@@ -99,7 +99,7 @@ ASSUMPTIONS = [
     "reference B = C M with C[p,i] = K[c+p-i] built by the harness (own direct convolution), D = B^T N^-1 d, F = B^T N^-1 B + eps on unregularized diagonals",
 ]
 EXPLORER_OPTS = {"timeout_ms": 10000, "max_paths": 20000, "max_candidates": 3}   # generous solver timeout: the host is shared and heavily loaded
-BUDGET_S = {"quick": 480, "thorough": 2200}
+BUDGET_S = {"quick": 480, "thorough": 3000}
 MAX_REPLAY = 24
 
 
@@ -133,6 +133,11 @@ PATTERNS = {
     "T6": [(0, 0), (0, 1), (0, 2), (1, 1), (2, 1), (3, 1)],
     "ring8": [(0, 0), (0, 1), (0, 2), (1, 0), (1, 2), (2, 0), (2, 1), (2, 2)],
     "block9": [(y, x) for y in range(3) for x in range(3)],
+    # thorough tier only
+    "block12": [(y, x) for y in range(3) for x in range(4)],
+    "holes10": [(0, 0), (0, 1), (0, 2), (0, 3), (1, 0), (1, 2), (2, 0), (2, 1), (2, 3), (3, 3)],
+    "stair7": [(0, 0), (1, 0), (1, 1), (2, 1), (2, 2), (3, 2), (3, 3)],
+    "far4": [(0, 0), (0, 4), (4, 0), (4, 4)],
 }
 
 
@@ -1236,6 +1241,111 @@ def cases(tier):
         out.append((I, {"pattern": "ring8", "ky": 3, "kx": 3, "specs": ["R33s2d", "F2", "R34s2e"], "mode": "noise", "signed": False}))
         out.append((I, {"pattern": "T6", "ky": 3, "kx": 5, "specs": ["R33s2d", "F1", "R34s1"], "mode": "data", "signed": False, "solve": True}))
         out.append((I, {"pattern": "ring8", "ky": 3, "kx": 3, "specs": ["D2", "F1", "R33s2d"], "mode": "data", "signed": False}))
+        out.extend(_deep_cases())
+    return out
+
+
+def _deep_cases():
+    """thorough tier only: the next sizes up under the same obligations"""
+    import itertools
+    W, I, Cn = "case_wtilde", "case_inversion", "case_consumers"
+    out = []
+    allk = [(1, 1), (3, 3), (5, 5), (1, 3), (3, 1), (3, 5), (5, 3)]
+    big = ("block12", "holes10", "stair7", "far4", "block9", "ring8", "T6")
+    # L0
+    out.append(("case_mapping_kernels", {"n": 9, "m": 6, "noreg": [0, 3, 5], "mode": "all"}))
+    out.append(("case_mapping_kernels", {"n": 8, "m": 5, "noreg": [2], "mode": "noise", "nsym": 8}))
+    for kind in ("upper", "blocks", "any"):
+        out.append(("case_mirrored", {"m": 9, "kind": kind}))
+    # L1: every mask of a 3x4 window (3x3 kernel), of a 3x3 window for every other kernel shape, data symbolic; 2x3 windows with data+noise
+    out.append((W, {"pattern": "all:3x4", "ky": 3, "kx": 3, "mode": "data"}, {"split": 6}))
+    for (ky, kx) in allk:
+        if (ky, kx) != (3, 3):
+            out.append((W, {"pattern": "all:3x3", "ky": ky, "kx": kx, "mode": "data"}, {"split": 4}))
+        out.append((W, {"pattern": "all:2x3", "ky": ky, "kx": kx, "mode": "data+noise"}, {"split": 2}))
+        for pat in big:
+            out.append((W, {"pattern": pat, "ky": ky, "kx": kx, "mode": "data", "extra": 1, "noise_exp": 15}))
+            out.append((W, {"pattern": pat, "ky": ky, "kx": kx, "mode": "data", "signed": "zeros"}))
+    # L1: all noise values symbolic on the larger patterns (signed kernels on the smaller ones, non-negative beyond)
+    for pat in ("ring8", "block9", "stair7", "T6", "far4"):
+        out.append((W, {"pattern": pat, "ky": 3, "kx": 3, "mode": "noise", "signed": pat in ("stair7", "far4")}))
+    for (ky, kx) in [(1, 3), (3, 1), (3, 5), (5, 3), (5, 5), (1, 1)]:
+        out.append((W, {"pattern": "cross5", "ky": ky, "kx": kx, "mode": "noise", "signed": False}))
+        out.append((W, {"pattern": "zig4", "ky": ky, "kx": kx, "mode": "noise"}))
+    # L1: more symbolic kernel-entry subsets, larger kernels / patterns
+    subsets33 = KSYM_33 + [[0, 1, 2], [3, 4, 5], [0, 3, 6], [2, 4, 6]]
+    for pat in ("block4", "zig4", "cross5", "gap3", "stair7", "far4"):
+        for ks in subsets33[4:]:
+            out.append((W, {"pattern": pat, "ky": 3, "kx": 3, "mode": "kernel", "ksym": ks}))
+    for pat in ("block4", "zig4", "cross5"):
+        for (ky, kx) in [(5, 5), (3, 5), (5, 3), (1, 3), (3, 1)]:
+            nk = ky * kx
+            for ks in ([0, nk // 2, nk - 1], [1, nk // 2 - 1, nk - 2]):
+                out.append((W, {"pattern": pat, "ky": ky, "kx": kx, "mode": "kernel", "ksym": ks}))
+    for pat in ("block9", "block12"):
+        out.append((W, {"pattern": pat, "ky": 3, "kx": 3, "mode": "kernel", "ksym": [4, 5]}))
+    # L2: consumers on the larger masks / meshes
+    for (pat, ky, kx, specs) in [("block12", 3, 3, ["R44s2d", "R35s2e"]), ("holes10", 3, 3, ["R33s4d", "R55s2d"]), ("stair7", 5, 5, ["R34s2e", "R43s1"]),
+                                 ("block12", 3, 5, ["R55s2e", "R33s1", "R44s4d"]), ("far4", 3, 3, ["R33s2d", "R34s2e"]), ("holes10", 5, 3, ["R45s2d"])]:
+        for mode in ("tables", "weights"):
+            out.append((Cn, {"pattern": pat, "ky": ky, "kx": kx, "specs": specs, "mode": mode, "q": 3}))
+    # L3: every order of further three-object lists (data symbolic, exact solve), larger masks / meshes, all kernel shapes
+    for specs, pat, k in [(["R33s2d", "F2", "F2b"], "holes10", (3, 3)), (["R44s2d", "R33s1n", "F1"], "block12", (3, 3)), (["R33s4d", "R35s2e", "R43s1"], "stair7", (3, 3)),
+                          (["F3", "R33s2e", "F3b"], "T6", (3, 5)), (["R34s2d", "F1", "R33s1n"], "block9", (5, 5))]:
+        for perm in itertools.permutations(specs):
+            out.append((I, {"pattern": pat, "ky": k[0], "kx": k[1], "specs": list(perm), "mode": "data", "signed": True, "solve": True}))
+    for (ky, kx) in allk:
+        out.append((I, {"pattern": "all:2x2", "ky": ky, "kx": kx, "specs": ["R33s2d", "F2", "R34s1"], "mode": "data", "signed": True, "solve": True}))
+        out.append((I, {"pattern": "holes10", "ky": ky, "kx": kx, "specs": ["R44s2d", "F1"], "mode": "data", "signed": True, "solve": True, "noise_exp": 16}))
+        out.append((I, {"pattern": "zig4", "ky": ky, "kx": kx, "specs": ["R33s2d", "F2", "R33s1n"], "mode": "noise", "signed": True}))
+        out.append((I, {"pattern": "block4", "ky": ky, "kx": kx, "specs": ["R33s2d", "R34s1"], "mode": "data+noise", "signed": True}))
+        nk = ky * kx
+        out.append((I, {"pattern": "block4", "ky": ky, "kx": kx, "specs": ["F1", "R33s2d"], "mode": "kernel", "ksym": sorted({0, nk // 2, nk - 1})}))
+    out.append((I, {"pattern": "all:2x3", "ky": 3, "kx": 3, "specs": ["R33s2d", "F2", "R34s1"], "mode": "data", "signed": True, "solve": True}, {"split": 4}))
+    out.append((I, {"pattern": "all:3x3", "ky": 3, "kx": 3, "specs": ["R33s2d", "F1"], "mode": "data", "signed": True}, {"split": 5}))
+    for pat in ("ring8", "block9", "stair7"):
+        out.append((I, {"pattern": pat, "ky": 3, "kx": 3, "specs": ["R33s2d", "R34s1"], "mode": "noise", "signed": False}))
+        out.append((I, {"pattern": pat, "ky": 3, "kx": 3, "specs": ["R33s1", "F2"], "mode": "data+noise", "signed": True}))
+    for pat, ks in (("cross5", [1, 3, 8]), ("zig4", [2, 5, 6]), ("gap3", [4, 6, 8]), ("block4", [0, 1, 2])):
+        out.append((I, {"pattern": pat, "ky": 3, "kx": 3, "specs": ["R33s2d", "F1", "R33s1n"], "mode": "kernel", "ksym": ks}))
+    for specs in (["D2", "R33s2d"], ["R34s1", "D1", "F2"], ["D2", "F1"]):
+        for pat in ("block9", "holes10"):
+            out.append((I, {"pattern": pat, "ky": 3, "kx": 3, "specs": specs, "mode": "data", "signed": True}))
+    # ---- second layer
+    # L1: every mask of a 4x4 window (65535 masks), 3x3 kernel, data symbolic; every mask of a 3x4 window for the 1-pixel-wide kernels
+    out.append((W, {"pattern": "all:4x4", "ky": 3, "kx": 3, "mode": "data"}, {"split": 7}))
+    for (ky, kx) in [(1, 1), (1, 3), (3, 1)]:
+        out.append((W, {"pattern": "all:3x4", "ky": ky, "kx": kx, "mode": "data"}, {"split": 5}))
+    out.append((W, {"pattern": "all:3x3", "ky": 3, "kx": 3, "mode": "data+noise", "signed": True}, {"split": 5}))
+    # L1: all noise values symbolic, signed kernels of every shape on the larger patterns; further symbolic kernel-entry subsets
+    for (ky, kx) in allk:
+        for pat in ("ring8", "block9", "stair7", "holes10", "block12"):
+            out.append((W, {"pattern": pat, "ky": ky, "kx": kx, "mode": "noise", "signed": True}))
+    for pat in ("ring8", "T6", "block9", "holes10", "block12", "stair7"):
+        for ks in subsets33:
+            out.append((W, {"pattern": pat, "ky": 3, "kx": 3, "mode": "kernel", "ksym": ks}))
+    for pat in ("ring8", "stair7", "holes10"):
+        for (ky, kx) in [(5, 5), (3, 5), (5, 3), (1, 3), (3, 1), (1, 1)]:
+            nk = ky * kx
+            out.append((W, {"pattern": pat, "ky": ky, "kx": kx, "mode": "kernel", "ksym": sorted({0, nk // 2, nk - 1})}))
+    # L3: all masks of a 2x3 window for every kernel shape (mapper + two-column function list, exact solve)
+    for (ky, kx) in allk:
+        out.append((I, {"pattern": "all:2x3", "ky": ky, "kx": kx, "specs": ["R33s2d", "F2"], "mode": "data", "signed": True, "solve": True}, {"split": 3}))
+    # L3: every order of five more three-object lists
+    for specs, pat, k in [(["R33s1", "R33s2d", "R33s4d"], "cross5", (1, 1)), (["F1", "F2", "R34s2e"], "stair7", (1, 3)), (["R35s2d", "F2", "R33s1n"], "ring8", (3, 1)),
+                          (["R44s4d", "R33s2e", "F1"], "far4", (5, 3)), (["R33s2d", "F2b", "R34s1"], "block12", (3, 3))]:
+        for perm in itertools.permutations(specs):
+            out.append((I, {"pattern": pat, "ky": k[0], "kx": k[1], "specs": list(perm), "mode": "data", "signed": True, "solve": True, "extra": 1 if pat == "cross5" else 0}))
+    # L3: noise / data+noise / kernel-entry families over more object mixes, patterns and kernel shapes
+    mixes = [["R33s1"], ["R33s2d", "F1"], ["F2", "R34s1"], ["R33s2d", "R34s1", "F1"], ["R33s1n", "R33s2e"], ["F1", "F2", "R33s2d"]]
+    for i, specs in enumerate(mixes):
+        for j, pat in enumerate(("cross5", "ring8", "stair7", "far4")):
+            ky, kx = allk[(i + 2 * j) % len(allk)]
+            out.append((I, {"pattern": pat, "ky": ky, "kx": kx, "specs": specs, "mode": "noise", "signed": True, "noise_exp": 0 if (i + j) % 2 else 15}))
+            out.append((I, {"pattern": pat, "ky": ky, "kx": kx, "specs": specs, "mode": "data+noise", "signed": (i + j) % 2 == 0}))
+            nk = ky * kx
+            if pat != "ring8":
+                out.append((I, {"pattern": pat, "ky": ky, "kx": kx, "specs": specs, "mode": "kernel", "ksym": sorted({(i + j) % nk, nk // 2, nk - 1})}))
     return out
 
 
